@@ -311,23 +311,26 @@ Qed.
 (* ------------------------------------------------------------------ *)
 (* several renders of one split: the cache never shows *)
 
-Definition render_one (fuel : nat) (orient : Z) (done : bool) (align : Z) (pad : dim)
-           (pool : list dim) (avail start : Z) (ids : list Z) : sx :=
-  let es := entries align ids in
-  let ds := map (entry_dim pool pad) es in
-  let no_children := match ids with [] => true | _ => false end in
-  let res := split_on fuel orient done no_children ds avail in
-  let regs := draw orient (map (lookup pool) ids) (length es) res start avail in
-  L [sx_dres res regs; L (map (fun e => A (entry_code e)) es)].
+(* the same renders by a split that never caches *)
+Fixpoint render_fresh (fuel : nat) (orient : Z) (done : bool) (align : Z) (pad : dim)
+         (pool : list dim) (avail start : Z)
+         (steps : list (list (Z * dim) * list Z)) : list sx :=
+  match steps with
+  | [] => []
+  | (chg, ids) :: rest =>
+      let pool' := apply_changes pool chg in
+      render_with fuel orient done pad pool' avail start ids (entries align ids)
+      :: render_fresh fuel orient done align pad pool' avail start rest
+  end.
 
-Theorem render_steps_nocache : forall fuel orient done align pad pool avail start steps c,
+Theorem render_steps_nocache : forall fuel orient done align pad avail start steps pool c,
   cache_ok align c ->
   render_steps fuel orient done align pad pool avail start c steps =
-  map (render_one fuel orient done align pad pool avail start) steps.
+  render_fresh fuel orient done align pad pool avail start steps.
 Proof.
-  intros fuel orient done align pad pool avail start steps.
-  induction steps as [|ids r IH]; intros c Hc; [reflexivity|].
-  cbn [render_steps map].
+  intros fuel orient done align pad avail start steps.
+  induction steps as [|[chg ids] r IH]; intros pool c Hc; [reflexivity|].
+  cbn [render_steps render_fresh].
   destruct (cache_get_spec align c ids Hc) as (E & Hc').
   destruct (cache_get align c ids) as [es c'] eqn:Eg. simpl in E, Hc'. subst es.
   f_equal. apply IH. exact Hc'.
@@ -339,4 +342,36 @@ Lemma split_on_eq : forall fuel orient done align pad cs avail,
 Proof.
   intros. unfold split_on, split_divide, split_divide_with. destruct (orient =? 0); [|reflexivity].
   destruct cs; reflexivity.
+Qed.
+
+(* explicit width= / height= on the split *)
+Lemma split_report_ov_valid : forall ov fuel orient axis align pad cs width r,
+  valid pad -> Forall valid (map fst cs) -> Forall valid (map snd cs) ->
+  (forall o, ov = Some o -> exists d, o = COk d /\ valid d) ->
+  split_report_ov ov fuel orient axis align pad cs width = inl r ->
+  exists d, r = COk d /\ valid d.
+Proof.
+  intros ov fuel orient axis align pad cs width r Hp Hw Hh Hov H. unfold split_report_ov in H.
+  destruct ov as [o|].
+  - injection H as <-. apply Hov. reflexivity.
+  - eapply split_report_valid; eassumption.
+Qed.
+
+(* across the split axis every child gets the full extent of the split *)
+Lemma cross_extent_full : forall orient cross prefs, cross_extent orient cross prefs = cross.
+Proof. intros. unfold cross_extent. destruct (orient =? 0); lia. Qed.
+
+Lemma window_preferred_total : forall axis mn mx w p cp de margin ignore d0,
+  dimension mn mx w p = COk d0 ->
+  (forall v, cp = Some v -> 0 <= v) -> 0 <= margin ->
+  exists d, window_preferred axis mn mx w p cp de margin ignore = COk d /\ valid d /\
+            dmin d = dmin d0 /\ dweight d = dweight d0 /\ dmax d <= dmax d0.
+Proof.
+  intros axis mn mx w p cp de margin ignore d0 H0 Hcp Hm. unfold window_preferred.
+  set (cp' := if ignore then None else match cp with Some v => Some (if axis =? 0 then v + margin else v) | None => None end).
+  assert (Hcp' : forall v, cp' = Some v -> 0 <= v).
+  { intros v Hv. unfold cp' in Hv. destruct ignore; [discriminate|]. destruct cp as [c|]; [|discriminate].
+    specialize (Hcp c eq_refl). injection Hv as <-. destruct (axis =? 0); lia. }
+  destruct (merge_total mn mx w p cp' de d0 H0 Hcp') as (d & Hd & A & B & C & _).
+  exists d. split; [exact Hd|]. split; [eapply merge_valid; exact Hd|]. auto.
 Qed.
